@@ -573,7 +573,43 @@ def cases_C19(tier, seed):
                     ops += ["swap 0 1", f"swap {sz-1} 0", f"swap 0 {sz}", f"swap {MAX} 0"]
                 for op in ops:
                     cases.append(pre + [op, "len", "pop_front", "drop"])
+    lat = addmod_lattice()
+    rng = random.Random(seed + 19)
+    for _ in range(2000 if tier == "quick" else 20000):
+        m = rng.choice([rng.randrange(1, 2**64), 2**64 - 1 - rng.randrange(0, 1000), 2**63 + rng.randrange(-1000, 1000)])
+        lat.append((rng.randrange(0, m + 1), rng.randrange(0, m + 1), m))
+    for k in range(0, len(lat), 50):
+        chunk = lat[k:k + 50]
+        cases.append(["case 1 z"] + [f"add_mod {x} {y} {m}" for x, y, m in chunk] + [f"sub_mod {x} {y} {m}" for x, y, m in chunk])
     return cases
+
+
+def addmod_lattice():
+    """boundary lattice for the index helpers: (x, y, m) with x, y <= m"""
+    ms = [1, 2, 3, 4, 5, 7, 8, 4294967295, 4294967296, 4294967297, 9223372036854775807, 9223372036854775808,
+          9223372036854775809, 18446744073709551613, 18446744073709551614, 18446744073709551615]
+    out = []
+    for m in ms:
+        pts = sorted(set(v for v in [0, 1, 2, m // 2 - 1, m // 2, m // 2 + 1, m - 2, m - 1, m] if 0 <= v <= m))
+        for x in pts:
+            for y in pts:
+                out.append((x, y, m))
+    return out
+
+
+def o_addmod(case, out):
+    """add_mod / sub_mod against (x + y) mod m resp. (x - y) mod m on unbounded integers"""
+    pr = []
+    for op, raw in zip(case, out):
+        t = op.split()
+        if t[0] not in ("add_mod", "sub_mod"):
+            continue
+        l = Line(raw)
+        x, y, m = int(t[1]), int(t[2]), int(t[3])
+        exp = (x + y) % m if t[0] == "add_mod" else (x - y) % m
+        if l.crash or l.ret != str(exp):
+            pr.append(f"`{op}` = {l.ret if not l.crash else l.raw}, expected {exp}")
+    return pr
 
 
 def cases_C20(tier, seed):
